@@ -17,7 +17,7 @@ import (
 )
 
 type qOp struct {
-	Op    string `json:"op"`            // add read readinflight remove replace init close
+	Op    string `json:"op"`            // add read readinflight remove lateremove replace init close tick
 	QoS   byte   `json:"qos,omitempty"` // add
 	Exp   string `json:"exp,omitempty"` // add: none|past|future
 	Big   bool   `json:"big,omitempty"` // add: larger than the read limit
@@ -86,7 +86,11 @@ func genQOps(t *rapid.T, maxOps int) []qOp {
 		case k <= 12:
 			ops = append(ops, qOp{Op: "read", N: rapid.IntRange(1, 4).Draw(t, "n")})
 		case k <= 14:
-			ops = append(ops, qOp{Op: "remove", K: rapid.IntRange(0, 3).Draw(t, "k")})
+			if rapid.IntRange(0, 3).Draw(t, "late") == 0 {
+				ops = append(ops, qOp{Op: "lateremove", K: rapid.IntRange(0, 3).Draw(t, "k")})
+			} else {
+				ops = append(ops, qOp{Op: "remove", K: rapid.IntRange(0, 3).Draw(t, "k")})
+			}
 		case k == 15:
 			ops = append(ops, qOp{Op: "replace", K: rapid.IntRange(0, 3).Draw(t, "k")})
 		case k == 16:
@@ -128,6 +132,7 @@ type qModel struct {
 	replayed int // number of in-flight entries replayed since the last non-clean Init
 	nextUID  int
 	nextID   uint16
+	gone     []uint16 // packet ids of sent in-flight entries the store dropped as expired: the client may still acknowledge them
 }
 
 func (m *qModel) inflight() (out []*qEntry) {
@@ -215,7 +220,7 @@ func runQueue(f queueFactory, s c10Scen, c *ev.Case) (viol *ev.Violation) {
 			return ev.Violf("C10.init-error", "Init returned %v", err)
 		}
 		if clean {
-			m.entries = nil
+			m.entries, m.gone = nil, nil
 			notifier.queueSum, notifier.inflSum = 0, 0 // nothing is reported for a clean start: new baseline
 		}
 		m.open, m.drained, m.replayed = true, false, 0
@@ -334,6 +339,9 @@ func runQueue(f queueFactory, s c10Scen, c *ev.Case) (viol *ev.Violation) {
 			}
 			if d.reason != wantReason {
 				return ev.Violf("C10.drop-reason", "rung %q: dropped uid=%d with reason %v, expected %v", rung, d.uid, d.reason, wantReason).With("rung", rung)
+			}
+			if hit != e && hit.id != 0 && hit.sent {
+				m.gone = append(m.gone, hit.id)
 			}
 			if hit != e {
 				if hit.id != 0 && !m.drained {
@@ -511,6 +519,32 @@ func runQueue(f queueFactory, s c10Scen, c *ev.Case) (viol *ev.Violation) {
 				x.pubrel, x.relReplayed = true, false
 				c.Label("replace")
 			}
+		case "lateremove":
+			// the client acknowledges a message the store has already given up on (dropped as expired in flight):
+			// nothing is there to remove, nothing may change
+			var cand []uint16
+			for _, id := range m.gone {
+				live := false
+				for _, x := range m.inflight() {
+					live = live || x.id == id
+				}
+				if !live {
+					cand = append(cand, id)
+				}
+			}
+			if !m.open || len(cand) == 0 {
+				c.Count("skipped_ops", 1)
+				continue
+			}
+			id := cand[op.K%len(cand)]
+			c.Logf("step %d: late remove id=%d | model %s", i, id, m.String())
+			if err := st.Remove(id); err != nil {
+				return ev.Violf("C10.remove-error", "Remove of an id that is no longer in the queue returned %v", err)
+			}
+			if len(notifier.drops) != 0 {
+				return ev.Violf("C10.late-remove", "Remove of id %d (dropped earlier as expired in flight) reported drops %v", id, notifier.drops)
+			}
+			c.Label("late_remove_after_inflight_expiry_drop")
 		case "init":
 			c.Logf("step %d: init clean=%v | model %s", i, op.Clean, m.String())
 			if m.open {
